@@ -69,9 +69,9 @@ claim("C16",
       "DESIGN.md §4 C16")
 
 claim("C17",
-      "stop-protocol shape check + wait-group discipline + channel close/send discipline + cancellation-arm rule + blocking-under-lock + call pairing + routing provenance",
-      "Decides ONLY the no-panic / prompt-return structure and two routing bindings of the cluster layer: CAS-guarded stop protocol of every component; every counted goroutine is added before start and defers Done; every channel field is closed once by its owning goroutine or under the task lock with unregistering, and every send on a closable channel is recover-guarded / in the closing function / under the closer's lock; every blocking operation of a waited goroutine has a cancellation arm; no blocking send under the task lock; AddTask paired with a deferred RemoveTask of the same request; a report is sent on the channel looked up by its own task id and carries the reporting collector's id.",
-      "Trusted: go/ssa, context cancellation, ants.Pool.Submit treated as asynchronous. NOT decided (not applicable to static analysis in reach): exactly-once delivery, per-connection order, replay to late subscribers, behaviour for all topologies and drop points.",
+      "stop-protocol shape check + wait-group discipline + channel close/send discipline + cancellation-arm rule + blocking-under-lock + call pairing + routing provenance + lockset of the current-task field",
+      "Decides ONLY the no-panic / prompt-return structure and two routing bindings of the cluster layer: CAS-guarded stop protocol of every component; every counted goroutine is added before start and defers Done; every channel field is closed once by its owning goroutine or under the task lock with unregistering, and every send on a closable channel is recover-guarded / in the closing function / under the closer's lock; every blocking operation of a waited goroutine has a cancellation arm; no blocking send under the task lock; AddTask paired with a deferred RemoveTask of the same request; a report is sent on the channel looked up by its own task id and carries the reporting collector's id; the current broadcast task (replayed to late subscribers) is read and written under one common lock (violated on the current tree: known finding D20, four accesses).",
+      "Trusted: go/ssa, context cancellation, ants.Pool.Submit treated as asynchronous. NOT decided (not applicable to static analysis in reach): exactly-once delivery beyond the lock discipline of the current-task field, per-connection order, behaviour for all topologies and drop points.",
       "DESIGN.md §4 C17")
 
 claim("C08",
